@@ -15,4 +15,6 @@ static int condlen(int n, int m) { int a[n > 0 ? n : 1]; char b[n && m ? n + m :
 static int afterjump(int n) { int r = 0; if (n > 100) goto out; for (;;) { int v[n + 1]; v[n] = n; r += v[n]; if (r > 3) break; continue; { int dead[n ? n : 1]; dead[0] = 1; r += dead[0]; } }
 	switch (n) { case 1: { int w[n * 2]; w[1] = 5; r += w[1] + (int)sizeof w; break; } default: r += 1; }
 out:	{ int z[r > 0 ? r : 1]; z[0] = r; return z[0] + (int)(sizeof z / sizeof *z); } }
-int main(void) { P(condlen(3, 0)); P(condlen(0, 0)); P(condlen(2, 5)); P(afterjump(1)); P(afterjump(2)); P(afterjump(200)); int a[7]; P(fill(7, a)); P(vl(1)); P(vl(4)); P(vl(9)); P(growing()); P(sideeffect()); P(al(1)); P(al(17)); P(al(100)); P(alloop()); P(aligned()); P(ptrvla(2)); P(ptrvla(5)); return 0; }
+/* parameters of variably modified type whose length opens blocks of its own, followed by ordinary locals */
+static int vmparam(int n, int (*a)[n ? n : 1], int m, char (*b)[n > 0 && m > 0 ? n + m : 1][m || n ? 2 : 3]) { int x = 1; long y[2] = { 5, 6 }; (*a)[0] = 4; (*b)[0][1] = 7; return x + (int)sizeof *a + (int)sizeof *b + (*a)[0] + (*b)[0][1] + (int)y[1]; }
+int main(void) { { int va[5]; char vb[7][2]; P(vmparam(5, &va, 2, &vb)); int vc[1]; char vd[1][3]; P(vmparam(0, &vc, 0, &vd)); } P(condlen(3, 0)); P(condlen(0, 0)); P(condlen(2, 5)); P(afterjump(1)); P(afterjump(2)); P(afterjump(200)); int a[7]; P(fill(7, a)); P(vl(1)); P(vl(4)); P(vl(9)); P(growing()); P(sideeffect()); P(al(1)); P(al(17)); P(al(100)); P(alloop()); P(aligned()); P(ptrvla(2)); P(ptrvla(5)); return 0; }
